@@ -87,3 +87,28 @@ let sizes_of_spec (spec : string) (n : int) : coq_N list =
     let k = max 1 (int_of_string (String.sub spec 1 (String.length spec - 1))) in
     List.init (n / k + 1) (fun _ -> n_of_int k)
   end else List.map (fun x -> n_of_int (int_of_string x)) (String.split_on_char ',' spec)
+
+(* ---- in-kernel replay (thorough tier): a sample of cases is written out as Coq boolean
+   expressions over the same model/monitor functions; the driver evaluates them with
+   vm_compute to cross-check extraction against the kernel's evaluator ---- *)
+let coq_cases : string list ref = ref []
+let coq_case_count = ref 0
+let coq_case_limit = 400
+let coq_case_stride = ref 0
+let add_coq_case (mk : unit -> string) =
+  incr coq_case_stride;
+  if !coq_case_count < coq_case_limit && (!coq_case_stride mod 37 = 1) then begin
+    incr coq_case_count; coq_cases := mk () :: !coq_cases
+  end
+let cq_n (n : coq_N) = "(" ^ string_of_n n ^ ")%N"
+let cq_z (z : coq_Z) = match z with
+  | Z0 -> "0%Z" | Zpos p -> "(" ^ string_of_n (Npos p) ^ ")%Z" | Zneg p -> "(-" ^ string_of_n (Npos p) ^ ")%Z"
+let cq_bool b = if b then "true" else "false"
+let cq_bytes (l : coq_N list) = "[" ^ String.concat "; " (List.map (fun x -> string_of_int (int_of_n x)) l) ^ "]%N"
+let write_coq_cases () =
+  match Sys.getenv_opt "VERIF_COQCASES" with
+  | Some path when !coq_cases <> [] ->
+    let oc = open_out path in
+    List.iter (fun c -> output_string oc (c ^ "\n")) (List.rev !coq_cases);
+    close_out oc
+  | _ -> ()
